@@ -537,6 +537,13 @@ static inline struct ubuf *ubuf_block_splice(struct ubuf *ubuf, int offset,
                                              int size)
 {
     struct ubuf *new_ubuf;
+    if (likely(ubuf->mgr->signature == UBUF_ALLOC_BLOCK && size != -1)) {
+        int total_size = ubuf_block_from_ubuf(ubuf)->total_size;
+        if (unlikely(size < 0 ||
+                     size > total_size -
+                            (offset < 0 ? offset + total_size : offset)))
+            return NULL;
+    }
     if (unlikely(ubuf->mgr->signature != UBUF_ALLOC_BLOCK ||
                  (ubuf = ubuf_block_get(ubuf, &offset, &size)) == NULL ||
                  !ubase_check(ubuf_control(ubuf, UBUF_SPLICE_BLOCK,
